@@ -17,6 +17,29 @@ def run(tier, rep):
     progs = fam_c17.programs(tier)
     cases, counts = famcheck.run_families("C17", rep, progs, "c17")
     rep.coverage["go_invalid_not_decidable_here"] = counts.get("go-invalid", 0)
+    # ---- an inherent method defined for a generic type AND for one of its instantiations: whatever the language decides (reject
+    # the overlap, or prefer one), `x.m()` and `T::m(x)` must run the same code - the two printed lines must be equal
+    import engine
+    root = workdir("c17-overlap")
+    ocases = []
+    for inst, lit in (("int32", "1"), ("string", '"s"'), ("bool", "true")):
+        for order in ("generic-first", "instance-first"):
+            g = "impl[T] Bx[T] { fn tag(self: Bx[T]) -> string { \"generic\" } }\n"
+            i = f"impl Bx[{inst}] {{ fn tag(self: Bx[{inst}]) -> string {{ \"instance\" }} }}\n"
+            text = ("struct Bx[T] { v: T }\n" + (g + i if order == "generic-first" else i + g) +
+                    f"fn main() -> unit {{\n    let b: Bx[{inst}] = Bx {{ v: {lit} }};\n    let _ = string_println(b.tag());\n    let _ = string_println(Bx::tag(b));\n    ()\n}}\n")
+            cid = f"overlap_{inst}_{order}".replace("-", "_")
+            ocases.append({"id": cid, "path": engine.write_case(root, cid, text), "ident": f"c17:overlapping-inherent-impls:{inst}:{order}", "text": text})
+    engine.evaluate(ocases, static=True, sem=True, name="c17-overlap")
+    compared = 0
+    for c in ocases:
+        if c["compile"]["verdict"] != "ok" or not c["sem"] or c["sem"]["status"] != "ok":
+            continue
+        lines = c["sem"]["out"].decode("utf-8", "replace").splitlines()
+        compared += 1
+        if len(lines) != 2 or lines[0] != lines[1]:
+            rep.violation(c["ident"], {"method_form_prints": lines[:1], "type_qualified_form_prints": lines[1:2], "source": c["text"]}, replay={"path": c["path"]})
+    rep.coverage["overlapping_inherent_impls_compared"] = compared
     rep.assumptions += famcheck.STD_ASSUMPTIONS
     if counts.get("agree", 0) < 12:
         raise ToolError("vacuity: fewer than 12 call-form programs compared")
